@@ -14,7 +14,7 @@ RULE = (
     "happened after at least one member or record was processed; state = (abort member, abort record, method, what was archived)"
 )
 BOUNDS = {
-    "quick": "groups of 1..3 (abort member at every index) x 2 error kinds x 2 raise configurations (validation-mode comment, config policy raise+collect) x files of 2..4 records (every abort position) x 6 methods x 2 follow-up methods; plus the policies quiet+raise+collect and raise+collect+stop+fail+print for one kind",
+    "quick": "groups of 1..3 (abort member at every index) x 3 abort kinds (argument mismatch, Python exception, a collect() projection failing outside the match components) x 2 raise configurations (validation-mode comment, config policy raise+collect) x files of 2..4 records (every abort position) x 6 methods x 2 follow-up methods; plus the policies quiet+raise+collect and raise+collect+stop+fail+print for one kind",
     "thorough": "groups of 1..4, files of 2..8 records, every (member, record) abort point, 6 methods, 2 kinds x 2 configurations (+ 2 wider policies for one kind)",
 }
 CHUNK = 30
